@@ -17,18 +17,131 @@ func vsgn(n int) int {
 	return 0
 }
 
-// C13 integers: Unpack(Pack(n)) == n for every int64, PackSize == length.
+var vpow10 = [20]uint64{1, 10, 100, 1000, 10000, 100000, 1000000, 10000000, 100000000, 1000000000,
+	10000000000, 100000000000, 1000000000000, 10000000000000, 100000000000000, 1000000000000000,
+	10000000000000000, 100000000000000000, 1000000000000000000, 10000000000000000000}
+
+// vclass describes a class of int64 values: sign, number of decimal digits k (0 = the number
+// zero), and number of trailing zero digits t (-1 = any).
+type vclass struct {
+	neg  bool
+	k, t int
+}
+
+// vint: an arbitrary int64 of the class. The magnitude range is declared to the engine, so the
+// digit-count loops of the code under test are decided from intervals without forking; with
+// t >= 0 the value is q*10^t with q%10 != 0, so the trailing-zero loops have one feasible exit.
+func vint(name string, c vclass) int64 {
+	if c.k == 0 {
+		return 0
+	}
+	lim := uint64(math.MaxInt64)
+	if c.neg {
+		lim++
+	}
+	var m uint64
+	if c.t < 0 {
+		m = rt.U64Range(name, vpow10[c.k-1], min(vpow10[c.k]-1, lim))
+	} else {
+		p := vpow10[c.t]
+		q := rt.U64Range(name, vpow10[c.k-1-c.t], min(vpow10[c.k-c.t]-1, lim/p))
+		rt.Assume(q%10 != 0)
+		m = q * p
+	}
+	if c.neg {
+		return -int64(m)
+	}
+	return int64(m)
+}
+
+// vpickClass: thorough: every sign and digit count with any number of trailing zeros (= every
+// int64); quick: one of the listed classes.
+func vpickClass(name string, quick []vclass) vclass {
+	if rt.Thorough() {
+		neg := rt.Pick(name+"_neg", 2) == 1
+		k := rt.Pick(name+"_digits", 20)
+		if neg && k == 0 {
+			rt.Assume(false)
+		}
+		return vclass{neg, k, -1}
+	}
+	return quick[rt.Pick(name+"_class", len(quick))]
+}
+
+// vcheckNumEncoding is the independent statement of the packed number format: tag by sign; zero is
+// the tag alone; otherwise an exponent byte e (biased by 0x80) and base-100 digit pairs with
+// |value| = 0.d1d2d3... * 10^e, first digit non-zero, no trailing zero pair; a negative number has
+// the exponent and digit bytes complemented. Checks the digit part against |value| = mag * 10^-scale
+// for the (concrete) exponent e; the caller checks the exponent byte.
+func vcheckNumEncoding(p string, neg bool, e int, mag rt.Z, scale int) {
+	xor, tag := byte(0), byte(PackPlus)
+	if neg {
+		xor, tag = 0xff, PackMinus
+	}
+	rt.Assert("encoding/tag", len(p) >= 1 && p[0] == tag)
+	if len(p) < 3 || len(p) > 12 {
+		rt.Assert("encoding/length", false)
+		return
+	}
+	npairs := len(p) - 2
+	inRange := true
+	sum := rt.ZI(0)
+	for j := 0; j < npairs; j++ {
+		d := p[2+j] ^ xor
+		inRange = rt.And(inRange, d <= 99)
+		sum = sum.MulPow10(2).Add(rt.ZU(uint64(d)))
+	}
+	rt.Assert("encoding/pairs-0..99", inRange)
+	rt.Assert("encoding/leading-digit-nonzero", p[2]^xor >= 10)
+	rt.Assert("encoding/no-trailing-zero-pair", p[len(p)-1]^xor != 0)
+	// mag / 10^scale == sum / 100^npairs * 10^e
+	l, r := e-2*npairs, -scale
+	if l >= r {
+		rt.Assert("encoding/value", sum.MulPow10(l-r).Eq(mag))
+	} else {
+		rt.Assert("encoding/value", sum.Eq(mag.MulPow10(r-l)))
+	}
+}
+
+// vexpByte decodes the exponent byte of a packed non-zero number.
+func vexpByte(p string, neg bool) int {
+	if len(p) < 2 {
+		return -1000
+	}
+	if neg {
+		return int(int8(p[1] ^ 0x80 ^ 0xff))
+	}
+	return int(int8(p[1] ^ 0x80))
+}
+
+// C13 integers: Unpack(Pack(n)) == n for every int64, PackSize == length, and the bytes are the
+// canonical number format with value n.
 //
-//symgo:harness prop=C13 tier=quick arith=int shards=4 timeout=300 bounds=all_int64
+//symgo:harness prop=C13 tier=quick arith=int shards=3 tshards=16 timeout=300 ttimeout=1500 bounds=quick:_all_int64_with_1..3_digits,_17_digits_(0_or_16_trailing_zeros),_19_digits_(0,1,2_or_18_trailing_zeros),_zero;thorough:_every_int64
 func VerifC13IntRoundTrip() {
-	n := rt.I64Range("n", math.MinInt64, math.MaxInt64)
+	c := vpickClass("n", []vclass{{false, 0, 0},
+		{false, 1, -1}, {false, 2, -1}, {false, 3, -1}, {false, 17, 0}, {false, 17, 16}, {false, 19, 0}, {false, 19, 1}, {false, 19, 18},
+		{true, 1, -1}, {true, 2, -1}, {true, 3, -1}, {true, 17, 0}, {true, 17, 16}, {true, 19, 0}, {true, 19, 1}, {true, 19, 2}, {true, 19, 18}})
+	n := vint("n", c)
 	x := SuInt64{int64: n}
 	p := Pack(x)
 	rt.Reach("packed")
 	rt.Observe("p", p)
 	rt.Assert("int/packsize", x.PackSize(nil) == len(p))
-	v := Unpack(p)
+	if c.k == 0 {
+		rt.Assert("encoding/zero", p == string([]byte{PackPlus}))
+	} else {
+		e := rt.Concrete(vexpByte(p, c.neg))
+		rt.Assert("encoding/exponent", e == c.k)
+		vcheckNumEncoding(p, c.neg, e, rt.ZI(n).Abs(), 0)
+	}
+	var v Value
+	if rt.Try(func() { v = Unpack(p) }) {
+		rt.Assert("roundtrip/int-unpack-panics", false)
+		return
+	}
 	vi, ok := SuIntToInt(v)
+	rt.Observe("isInt", ok)
 	if ok {
 		rt.Assert("int/roundtrip", int64(vi) == n)
 	} else {
@@ -39,48 +152,310 @@ func VerifC13IntRoundTrip() {
 }
 
 // C13 integers: an integer packs to the same bytes whether it is held as SuInt64, as a small
-// int or as a decimal (canonical encoding).
+// int or as a decimal (canonical encoding). Every int64 that a decimal can hold exactly (at most
+// 16 significant digits) is in the thorough bound.
 //
-//symgo:harness prop=C13 tier=quick arith=int shards=4 timeout=300 bounds=all_|n|<10^16_(decimal_exact);small_ints_in_int16
+//symgo:harness prop=C13 tier=quick arith=int shards=3 tshards=16 timeout=300 ttimeout=1500 bounds=quick:_integers_of_1..4_digits,_16_digits_(0,1,15_trailing_zeros),_17_(1,16)_and_19_digits_(3,18);thorough:_every_int64_with_at_most_16_significant_digits;small_ints_in_int16
 func VerifC13IntCanonical() {
-	n := rt.I64Range("n", -9999999999999999, 9999999999999999)
+	var c vclass
+	if rt.Thorough() {
+		c.neg = rt.Pick("n_neg", 2) == 1
+		c.k = rt.Pick("n_digits", 19) + 1
+		c.t = -1
+		if c.k > 16 { // needs at least k-16 trailing zeros
+			c.t = c.k - 16 + rt.Pick("n_tz", 16)
+		}
+	} else {
+		quick := []vclass{{false, 1, -1}, {false, 2, -1}, {false, 3, -1}, {false, 4, -1}, {false, 16, 0}, {false, 16, 1}, {false, 16, 15},
+			{false, 17, 1}, {false, 17, 16}, {false, 19, 3}, {false, 19, 18},
+			{true, 1, -1}, {true, 2, -1}, {true, 3, -1}, {true, 4, -1}, {true, 16, 0}, {true, 16, 1}, {true, 16, 15},
+			{true, 17, 1}, {true, 17, 16}, {true, 19, 3}, {true, 19, 18}}
+		c = quick[rt.Pick("n_class", len(quick))]
+	}
+	n := vint("n", c)
 	p1 := Pack(SuInt64{int64: n})
 	p2 := Pack(SuDnum{Dnum: dnum.FromInt(n)})
 	rt.Reach("packed")
+	rt.Observe("p1", p1)
+	rt.Observe("p2", p2)
 	rt.Assert("canonical/int64-vs-decimal", p1 == p2)
-	if MinSuInt <= n && n <= MaxSuInt {
+	if c.k <= 5 && MinSuInt <= n && n <= MaxSuInt {
+		rt.Reach("smallint")
 		p3 := Pack(SuInt(int(n)))
 		rt.Assert("canonical/smallint", p1 == p3)
 	}
 }
 
-// C13 integers: byte order of packed integers == numeric order.
+// vorderAsserts: a < b (as values) must give pa < pb (as bytes); one label per case. For two
+// negative numbers of different packed length where the shorter encoding is a prefix of the
+// longer one the format cannot order them correctly: that case has its own label.
+func vorderAsserts(kind string, aNeg, bNonNeg bool, pa, pb string) {
+	less := pa < pb
+	switch {
+	case !aNeg:
+		rt.Assert("order/"+kind+"-nonneg", less)
+	case bNonNeg:
+		rt.Assert("order/"+kind+"-mixed-sign", less)
+	case len(pa) == len(pb):
+		rt.Assert("order/"+kind+"-negative-equal-length", less)
+	default:
+		short, long := pa, pb
+		if len(pb) < len(pa) {
+			short, long = pb, pa
+		}
+		if long[:len(short)] == short {
+			rt.Reach("negative-prefix-pair")
+			rt.Assert("order/negative-prefix", less)
+		} else {
+			rt.Assert("order/"+kind+"-negative", less)
+		}
+	}
+}
+
+type vpair struct{ a, b vclass }
+
+// C13 integers: byte order of packed integers == numeric order, directly on pairs of int64.
+// (All pairs of decimals, hence of integers up to 16 digits, are in VerifC13DnumOrder.)
 //
-//symgo:harness prop=C13 tier=quick arith=int shards=16 timeout=400 bounds=all_pairs_of_int64_with_equal_sign_classes_split_by_label
+//symgo:harness prop=C13 tier=quick arith=int shards=6 tshards=16 timeout=300 ttimeout=1700 bounds=pairs_a<b_of_int64;quick:_both_1..3_digits_same_sign,_(1|2,_2|3_digits),_17|17,_19|19,_18|19_digits_(no_trailing_zero),_mixed_signs_1..2_digits_and_19_digits_and_zero;thorough:_same_sign_and_digit_count_up_to_8_digits_(any),_9..19_digits_(0,1,k-1_trailing_zeros),_all_digit-count_pairs_(no_trailing_zero),_adjacent_digit_counts_up_to_6_(any),_all_mixed-sign_digit-count_pairs_(no_trailing_zero)
 func VerifC13IntOrder() {
-	a := rt.I64Range("a", math.MinInt64, math.MaxInt64)
-	b := rt.I64Range("b", math.MinInt64, math.MaxInt64)
+	var ca, cb vclass
+	if rt.Thorough() {
+		switch rt.Pick("case", 5) {
+		case 0: // same sign, same digit count 1..8, any trailing zeros
+			neg := rt.Pick("neg", 2) == 1
+			k := rt.Pick("k", 8) + 1
+			ca, cb = vclass{neg, k, -1}, vclass{neg, k, -1}
+		case 1: // same sign, same digit count 9..19, trailing zeros in {0,1,k-1}
+			neg := rt.Pick("neg", 2) == 1
+			k := rt.Pick("k", 11) + 9
+			ts := []int{0, 1, k - 1}
+			ca, cb = vclass{neg, k, ts[rt.Pick("ta", 3)]}, vclass{neg, k, ts[rt.Pick("tb", 3)]}
+		case 2: // same sign, any two different digit counts, no trailing zero
+			neg := rt.Pick("neg", 2) == 1
+			k1, k2 := rt.Pick("k1", 19)+1, rt.Pick("k2", 19)+1
+			if k1 >= k2 {
+				rt.Assume(false)
+			}
+			ca, cb = vclass{neg, k1, 0}, vclass{neg, k2, 0}
+			if neg {
+				ca, cb = cb, ca
+			}
+		case 3: // same sign, adjacent digit counts up to 6|7, any trailing zeros
+			neg := rt.Pick("neg", 2) == 1
+			k := rt.Pick("k", 6) + 1
+			ca, cb = vclass{neg, k, -1}, vclass{neg, k + 1, -1}
+			if neg {
+				ca, cb = cb, ca
+			}
+		case 4: // a negative, b zero or positive, no trailing zero
+			ca, cb = vclass{true, rt.Pick("k1", 19) + 1, 0}, vclass{false, rt.Pick("k2", 20), 0}
+		}
+	} else {
+		quick := []vpair{
+			{vclass{false, 1, -1}, vclass{false, 1, -1}}, {vclass{false, 2, -1}, vclass{false, 2, -1}}, {vclass{false, 3, -1}, vclass{false, 3, -1}},
+			{vclass{true, 1, -1}, vclass{true, 1, -1}}, {vclass{true, 2, -1}, vclass{true, 2, -1}}, {vclass{true, 3, -1}, vclass{true, 3, -1}},
+			{vclass{false, 1, -1}, vclass{false, 2, -1}}, {vclass{false, 2, -1}, vclass{false, 3, -1}},
+			{vclass{true, 2, -1}, vclass{true, 1, -1}}, {vclass{true, 3, -1}, vclass{true, 2, -1}},
+			{vclass{false, 17, 0}, vclass{false, 17, 0}}, {vclass{false, 19, 0}, vclass{false, 19, 0}}, {vclass{false, 18, 0}, vclass{false, 19, 0}},
+			{vclass{true, 17, 0}, vclass{true, 17, 0}}, {vclass{true, 19, 0}, vclass{true, 19, 0}}, {vclass{true, 19, 0}, vclass{true, 18, 0}},
+			{vclass{true, 19, 2}, vclass{true, 19, 0}},
+			{vclass{true, 1, -1}, vclass{false, 0, 0}}, {vclass{true, 2, -1}, vclass{false, 1, -1}}, {vclass{true, 1, -1}, vclass{false, 2, -1}},
+			{vclass{true, 19, 0}, vclass{false, 19, 0}}, {vclass{true, 19, 0}, vclass{false, 0, 0}},
+		}
+		pr := quick[rt.Pick("pair", len(quick))]
+		ca, cb = pr.a, pr.b
+	}
+	a, b := vint("a", ca), vint("b", cb)
 	rt.Assume(a < b)
 	pa, pb := Pack(SuInt64{int64: a}), Pack(SuInt64{int64: b})
 	rt.Reach("packed")
-	less := strings.Compare(pa, pb) < 0
-	switch {
-	case a >= 0:
-		rt.Assert("order/int-nonneg", less)
-	case b >= 0:
-		rt.Assert("order/int-mixed-sign", less)
-	default:
-		rt.Assert("order/int-negative", less)
+	rt.Observe("pa", pa)
+	rt.Observe("pb", pb)
+	vorderAsserts("int", ca.neg, !cb.neg, pa, pb)
+}
+
+// vdnum: an arbitrary valid dnum.Dnum: zero, +inf, -inf, or sign * 0.coef * 10^exp with a
+// 16-digit coefficient and any int8 exponent.
+func vdnum(name string) dnum.Dnum {
+	sign := int8(1)
+	switch rt.Pick(name+"_kind", 5) {
+	case 0:
+		return dnum.Zero
+	case 1:
+		return dnum.PosInf
+	case 2:
+		return dnum.NegInf
+	case 3:
+		sign = -1
 	}
+	coef := rt.U64Range(name+"_coef", 1000000000000000, 9999999999999999)
+	exp := rt.IntRange(name+"_exp", -128, 127)
+	return dnum.Raw(sign, coef, exp)
+}
+
+func vfiniteDnum(x dnum.Dnum) bool { return x.Sign() == 1 || x.Sign() == -1 }
+
+// C13 decimals: every valid Dnum packs to PackSize bytes in the canonical number format with
+// exactly its value, and Unpack returns an equal value (the same decimal, or the exactly equal
+// integer).
+//
+//symgo:harness prop=C13 tier=quick arith=int shards=4 tshards=8 timeout=300 ttimeout=900 bounds=all_valid_Dnum:_zero,_+-inf,_both_signs,_all_16-digit_coefficients,_all_int8_exponents
+func VerifC13DnumRoundTrip() {
+	x := vdnum("x")
+	sx := SuDnum{Dnum: x}
+	p := Pack(sx)
+	rt.Reach("packed")
+	rt.Observe("p", p)
+	rt.Assert("dnum/packsize", sx.PackSize(nil) == len(p))
+	switch {
+	case x.Sign() == 0:
+		rt.Assert("encoding/zero", p == string([]byte{PackPlus}))
+	case x.Sign() == 2:
+		rt.Assert("encoding/+inf", p == string([]byte{PackPlus, 0xff, 0xff}))
+	case x.Sign() == -2:
+		rt.Assert("encoding/-inf", p == string([]byte{PackMinus, 0, 0}))
+	default:
+		// value = 0.coef * 10^exp: exponent byte, then the digits as 0.coef (exponent 0)
+		rt.Assert("encoding/exponent", vexpByte(p, x.Sign() < 0) == x.Exp())
+		vcheckNumEncoding(p, x.Sign() < 0, 0, rt.ZU(x.Coef()), 16)
+	}
+	var v Value
+	if rt.Try(func() { v = Unpack(p) }) {
+		rt.Assert("roundtrip/dnum-unpack-panics", false)
+		return
+	}
+	vd, isDn := v.(SuDnum)
+	rt.Observe("isDnum", isDn)
+	if isDn {
+		rt.Assert("dnum/roundtrip", vd.Dnum == x)
+		return
+	}
+	vi, ok := SuIntToInt(v)
+	rt.Assert("dnum/roundtrip-type", ok)
+	rt.Observe("vi", vi)
+	if !vfiniteDnum(x) {
+		rt.Assert("dnum/roundtrip-zero", x.Sign() == 0 && vi == 0)
+		return
+	}
+	// an integral decimal may come back as the exactly equal integer: vi == sign*coef*10^(exp-16)
+	e := rt.Concrete(x.Exp())
+	iv := rt.ZI(int64(vi))
+	if x.Sign() < 0 {
+		iv = iv.Neg()
+	}
+	if e <= 16 {
+		rt.Assert("dnum/roundtrip-int-exact", iv.MulPow10(16-e).Eq(rt.ZU(x.Coef())))
+	} else {
+		rt.Assert("dnum/roundtrip-int-exact", iv.Eq(rt.ZU(x.Coef()).MulPow10(e-16)))
+	}
+}
+
+// C13 decimals: for every pair of valid Dnums, byte order of the packed values == dnum.Compare
+// == order by value (model: sign class, then (exponent, coefficient) since coefficients are
+// normalised), and equal values have equal bytes.
+//
+//symgo:harness prop=C13 tier=quick arith=int shards=6 tshards=8 timeout=300 ttimeout=900 bounds=all_pairs_x<=y_of_valid_Dnum_(zero,_+-inf,_both_signs,_all_16-digit_coefficients,_all_int8_exponents)
+func VerifC13DnumOrder() {
+	x, y := vdnum("x"), vdnum("y")
+	// value order model
+	var less, equal bool
+	switch {
+	case x.Sign() != y.Sign():
+		less, equal = x.Sign() < y.Sign(), false
+	case !vfiniteDnum(x):
+		less, equal = false, true
+	default:
+		magLess := rt.Or(x.Exp() < y.Exp(), rt.And(x.Exp() == y.Exp(), x.Coef() < y.Coef()))
+		equal = rt.And(x.Exp() == y.Exp(), x.Coef() == y.Coef())
+		if x.Sign() > 0 {
+			less = magLess
+		} else {
+			less = rt.And(!magLess, !equal)
+		}
+	}
+	rt.Assume(rt.Or(less, equal)) // x <= y: covers every unordered pair
+	c := dnum.Compare(x, y)
+	px, py := Pack(SuDnum{Dnum: x}), Pack(SuDnum{Dnum: y})
+	rt.Reach("packed")
+	rt.Observe("c", c)
+	rt.Observe("px", px)
+	rt.Observe("py", py)
+	rt.Assert("order/dnum-compare-is-value-order", rt.And(rt.And((c < 0) == less, (c == 0) == equal), c <= 0))
+	if c == 0 {
+		rt.Assert("canonical/dnum-equal-values-equal-bytes", px == py)
+		return
+	}
+	vorderAsserts("dnum", x.Sign() < 0, y.Sign() >= 0, px, py)
+}
+
+type vdateVal struct {
+	date, time uint32
+	extra      uint8 // 0: plain date
+}
+
+func (d vdateVal) value() Packable {
+	sd := SuDate{date: d.date, time: d.time}
+	if d.extra == 0 {
+		return sd
+	}
+	return SuTimestamp{SuDate: sd, extra: d.extra}
+}
+
+func vdate(name string) vdateVal {
+	d := vdateVal{date: rt.U32(name + "_date"), time: rt.U32(name + "_time")}
+	if rt.Pick(name+"_ts", 2) == 1 {
+		d.extra = rt.Byte(name + "_extra")
+		rt.Assume(d.extra != 0)
+	}
+	return d
+}
+
+// C13 dates and timestamps: round trip, PackSize, byte order == Compare == (date, time, extra)
+// order, where a plain date sorts as a timestamp with extra 0.
+//
+//symgo:harness prop=C13 tier=quick shards=1 timeout=300 bounds=all_32-bit_date_and_time_words_(a_superset_of_the_valid_dates);timestamp_extra_1..255;pairs_date|date,_date|timestamp,_timestamp|timestamp
+func VerifC13Dates() {
+	d1, d2 := vdate("d1"), vdate("d2")
+	v1, v2 := d1.value(), d2.value()
+	p1, p2 := Pack(v1), Pack(v2)
+	rt.Reach("packed")
+	rt.Observe("p1", p1)
+	rt.Observe("p2", p2)
+	want := 9
+	if d1.extra != 0 {
+		want = 10
+	}
+	rt.Assert("date/packsize", v1.PackSize(nil) == len(p1) && len(p1) == want)
+	rt.Assert("date/tag", p1[0] == PackDate)
+	u := Unpack(p1)
+	if d1.extra == 0 {
+		ud, ok := u.(SuDate)
+		rt.Assert("date/roundtrip", ok && ud.date == d1.date && ud.time == d1.time)
+	} else {
+		ut, ok := u.(SuTimestamp)
+		rt.Assert("timestamp/roundtrip", ok && ut.date == d1.date && ut.time == d1.time && ut.extra == d1.extra)
+	}
+	rt.Assert("date/equal-after-roundtrip", v1.(Value).Equal(u) && u.Equal(v1))
+	// order
+	less := rt.Or(d1.date < d2.date, rt.And(d1.date == d2.date,
+		rt.Or(d1.time < d2.time, rt.And(d1.time == d2.time, d1.extra < d2.extra))))
+	equal := rt.And(d1.date == d2.date, rt.And(d1.time == d2.time, d1.extra == d2.extra))
+	c := v1.(Value).Compare(v2.(Value))
+	rt.Observe("c", c)
+	rt.Assert("order/date-compare-is-value-order", (c < 0) == less && (c == 0) == equal)
+	rt.Assert("order/date", (p1 < p2) == less && (p1 == p2) == equal)
 }
 
 // C13 strings, booleans, type-tag order, "" smallest.
 //
-//symgo:harness prop=C13 tier=quick shards=2 bounds=strings_of_0..3_bytes;booleans
+//symgo:harness prop=C13 tier=quick shards=2 bounds=strings_of_0..3_bytes;booleans;one_arbitrary_date_or_timestamp;one_finite_decimal_with_arbitrary_sign_and_exponent
 func VerifC13StrBool() {
 	n := rt.Pick("len", 4)
 	s := rt.Str("s", n)
 	p := Pack(SuStr(s))
+	rt.Reach("packed")
+	rt.Observe("p", p)
 	v := Unpack(p)
 	vs, ok := v.(SuStr)
 	rt.Assert("str/roundtrip", ok && string(vs) == s)
@@ -89,10 +464,18 @@ func VerifC13StrBool() {
 	t := rt.Str("t", m)
 	q := Pack(SuStr(t))
 	rt.Assert("str/order", vsgn(strings.Compare(p, q)) == vsgn(strings.Compare(s, t)))
-	rt.Assert("empty-smallest", Pack(SuStr("")) <= p && Pack(SuStr("")) <= Pack(True.(Packable)) && Pack(SuStr("")) <= Pack(False.(Packable)))
-	rt.Assert("bool/roundtrip", Unpack(Pack(True.(Packable))) == True && Unpack(Pack(False.(Packable))) == False)
-	rt.Assert("bool/order", Pack(False.(Packable)) < Pack(True.(Packable)))
+	pt, pf := Pack(True.(Packable)), Pack(False.(Packable))
+	rt.Assert("empty-smallest", Pack(SuStr("")) == "" && "" <= p && "" < pt && "" < pf)
+	rt.Assert("bool/roundtrip", Unpack(pt) == True && Unpack(pf) == False)
+	rt.Assert("bool/order", pf < pt)
 	if n > 0 {
-		rt.Assert("tag/bool<number<string", Pack(True.(Packable)) < Pack(SuInt(0)) && Pack(SuInt(0)) < p && Pack(SuDnum{Dnum: dnum.NegInf}) > Pack(True.(Packable)) && Pack(SuDnum{Dnum: dnum.PosInf}) < p)
+		d := vdate("d")
+		pd := Pack(d.value())
+		sign := int8(1 - 2*rt.Pick("x_neg", 2))
+		x := dnum.Raw(sign, 1234567890123456, int(rt.I8("x_exp")))
+		px := Pack(SuDnum{Dnum: x})
+		rt.Assert("tag/bool<number<string<date", pt < px && px < p && p < pd &&
+			pt < Pack(SuInt(0)) && Pack(SuInt(0)) < p &&
+			pt < Pack(SuDnum{Dnum: dnum.NegInf}) && Pack(SuDnum{Dnum: dnum.PosInf}) < p)
 	}
 }
